@@ -29,6 +29,7 @@ func i(n int64) sdk.Int { return sdk.NewInt(n) }
 // Base is the scripted part of every workload: configuration, then one pass through every DeFi module with
 // real messages and real blocks (the shape of the repository's keeper fixtures, driven through the router).
 func (g *Gen) Base() {
+	g.next(6)
 	for _, s := range WorldSteps() {
 		g.step(s)
 	}
@@ -73,15 +74,24 @@ func (g *Gen) Base() {
 	g.next(6)
 	g.next(6)
 	g.bidAll()
-	// price move 1: vault collateral A2 2.0 -> 1.0 (vaults 4 and 5 become unsafe; the sweep of the next block seizes them)
+	// price move 1: lend collateral A1 2.0 -> 0.9 (borrows against cAsset1 become unsafe): the locked vaults of the LEND app
+	// (app 3) get the lower ids of the counter they share with the harbor app (app 2), while the store keeps them after
+	// app 2's: creation order and key order of the shared counter's records differ
+	g.step(cfgStep("env.price", priceArg{Asset: A1, Twa: 900000, Active: true}))
+	g.next(6)
+	g.next(6)
+	g.bidAll()
+	// price move 2: vault collateral A2 2.0 -> 1.0 (vaults 4, 5 and 6 become unsafe)
 	g.step(cfgStep("env.price", priceArg{Asset: A2, Twa: 1000000, Active: true}))
-	// the V1 liquidation message still works (its begin blocker is not wired): it seizes vault 5 before the V2 sweep
+	// the V1 liquidation message still works (its begin blocker is not wired): it seizes vault 5 before the V2 sweep;
+	// an internal keeper seizes vault 6 through the V2 message; the V2 sweep of the next block takes vault 4
 	g.msg("liqv1.liquidate", liqv1types.NewMsgLiquidateRequest(U("u6"), AppHarbor, 5))
+	g.msg("liqv2.internal", liqV2Internal(U("u3"), 6))
 	for p := int64(1); p <= 24; p += 2 { // limit bids on many discount levels: some are hit while the Dutch price falls
 		g.msg("aucv2.limitbid", auctionsv2types.NewMsgDepositLimitBid(U(Users[p%4]).String(), A2, A3, i(p), coin("uasset3", 150_000+p*1000)))
 	}
 	g.next(6)
-	g.msg("liqv2.internal", liqV2Internal(U("u6"), 6))
+	g.msg("liqv2.internal", liqV2Internal(U("u6"), 7))
 	g.msg("aucv1.bid.dutch", auctionv1types.NewMsgPlaceDutchBid(U("u3").String(), 1, coin("uasset2", 100_000), AppHarbor, 3))
 	g.bidAll()
 	for k := 0; k < 6; k++ {
@@ -89,15 +99,6 @@ func (g *Gen) Base() {
 		if k%2 == 1 {
 			g.bidAll()
 		}
-	}
-	// price move 2: lend collateral A1 2.0 -> 0.9 (borrows against cAsset1 become unsafe)
-	g.step(cfgStep("env.price", priceArg{Asset: A1, Twa: 900000, Active: true}))
-	g.next(6)
-	g.next(6)
-	g.bidAll()
-	for k := 0; k < 3; k++ {
-		g.next(290)
-		g.bidAll()
 	}
 	g.next(4000) // English auction end, Dutch restart
 	g.bidAll()
@@ -189,6 +190,7 @@ func (g *Gen) trade(pair uint64) {
 	if pair == 1 {
 		g.dustBook()
 		g.faulty()
+		g.lists()
 		// cancel-all naming several pairs (the event lists the pair ids); u2 and u6 leave resting orders every round
 		u := []string{"u2", "u6"}[g.R.Intn(2)]
 		g.msg("liquidity.cancelall.multi", liquiditytypes.NewMsgCancelAllOrders(AppSwap, U(u), []uint64{1, 2, 3}))
@@ -221,6 +223,7 @@ func (g *Gen) harborOpen() {
 	g.msg("vault.create", vaulttypes.NewMsgCreateRequest(U("u4"), AppHarbor, 2, i(3_000_000), i(1_000_000)))
 	g.msg("vault.create", vaulttypes.NewMsgCreateRequest(U("u1"), AppHarbor, 1, i(1_000_000), i(1_000_000)))
 	g.msg("vault.create", vaulttypes.NewMsgCreateRequest(U("u3"), AppHarbor, 1, i(1_200_000), i(1_500_000)))
+	g.msg("vault.create", vaulttypes.NewMsgCreateRequest(U("u6"), AppHarbor, 1, i(1_500_000), i(1_900_000)))
 	g.msg("vault.deposit", vaulttypes.NewMsgDepositRequest(U("u2"), AppHarbor, 1, 1, i(500_000)))
 	g.msg("vault.draw", vaulttypes.NewMsgDrawRequest(U("u2"), AppHarbor, 1, 1, i(700_000)))
 	g.msg("vault.repay", vaulttypes.NewMsgRepayRequest(U("u2"), AppHarbor, 1, 1, i(100_000)))
@@ -263,6 +266,12 @@ func (g *Gen) lendOpen() {
 	g.msg("lend.depositborrow", lendtypes.NewMsgDepositBorrow(U("u2").String(), 2, coin("ucasset1", 10_000_000)))
 	g.msg("lend.draw", lendtypes.NewMsgDraw(U("u2").String(), 2, coin("uasset2", 1_000_000)))
 	g.msg("lend.repay", lendtypes.NewMsgRepay(U("u2").String(), 2, coin("uasset2", 500_000)))
+	for _, pr := range g.C.App.LendKeeper.GetLendPairs(g.ctx()) { // a stable-rate borrow (asset 3 allows it)
+		if pr.AssetIn == A3 && pr.AssetOut == A2 && !pr.IsInterPool {
+			g.msg("lend.borrow.stable", lendtypes.NewMsgBorrow(U("u3").String(), 4, pr.Id, true, coin("ucasset3", 500_000_000), coin("uasset2", 100_000_000)))
+			break
+		}
+	}
 	g.msg("lend.borrowalt", lendtypes.NewMsgBorrowAlternate(U("u5").String(), A1, 1, coin("uasset1", 500_000_000), 1, false, coin("uasset2", 100_000_000), AppLend))
 }
 
@@ -371,4 +380,19 @@ func (g *Gen) interest() {
 		g.msg("locker.rewardcalc", lockertypes.NewMsgLockerRewardCalcRequest(U("u6").String(), l.AppId, l.LockerId))
 	}
 	g.msg("lend.calc", lendtypes.NewMsgCalculateInterestAndRewards(U("u2").String()))
+}
+
+// lists sends ACCEPTED messages that carry lists with several distinct elements (asset ids, child pool ids); what is
+// stored from such a list, and what later blocks do with it, must not depend on anything but the message.
+func (g *Gen) lists() {
+	if g.nLists >= 6 {
+		return
+	}
+	g.nLists++
+	assets := [][]uint64{{A2, A3}, {A3, A1, A2}, {A2, A1}, {A3, A2}, {A1, A3, A2}, {A3, A1}}[g.nLists-1]
+	g.msg("rewards.extlend.list", rewardstypes.NewMsgActivateExternalRewardsLend(AppLend, 1, assets, AppSwap, 1, coin("uharbor", 900_000_007+int64(g.nLists)), 1, 3, 1, U("u6")))
+	kids := [][]uint64{{3, 2}, {2, 4, 5}, {5, 3}, {4, 2, 3}, {2, 5}, {3, 4}}[g.nLists-1]
+	m := rewardstypes.NewMsgCreateGauge(AppSwap, U("u1"), g.C.Time.Add(30*time.Second), rewardstypes.LiquidityGaugeTypeID, 12*time.Hour, coin("weth", 60_000+int64(g.nLists)), 4)
+	m.Kind = &rewardstypes.MsgCreateGauge_LiquidityMetaData{LiquidityMetaData: &rewardstypes.LiquidtyGaugeMetaData{PoolId: 1, IsMasterPool: true, ChildPoolIds: kids}}
+	g.msg("rewards.gauge.list", m)
 }
